@@ -864,3 +864,7 @@ func (s *Sim) MainDone() bool {
 
 // SendVal returns v typed as the element type of c (used by the select rewrite).
 func SendVal[T any](c chan<- T, v T) T { return v }
+
+// ZeroSend returns a zero value typed after the element type of a channel
+// that is sent on (used by the select rewrite to declare temporaries).
+func ZeroSend[T any](c chan<- T) (z T) { return }
